@@ -542,8 +542,9 @@ def tol_for(pair, NK):
 
 def check_model(ctx, s, par, pairs, ef, kT, NK, nkfft, keep_fn, devs):
     """run the paired calculators on one model; a pair that disagrees beyond the tolerance is re-run on refined grids:
-       discretisation error shrinks with the grid (the pair is accepted when it falls below the tolerance or keeps
-       shrinking by > 30 % per refinement), a wrong sign / axis order / factor / derivative does not"""
+       discretisation error shrinks with the grid, though not monotonically (the pair is accepted when it falls below
+       the tolerance on one of the refined grids up to 28^3, or is still shrinking steadily there), a wrong sign /
+       axis order / factor / derivative does not"""
     dE = ef[1] - ef[0]
     case = dict(model=par, NK=NK, kT=kT, kT_over_dE=kT / dE, Efermi=[float(ef[0]), float(ef[-1]), len(ef)])
     names = sorted({n for p in pairs for n in p})
@@ -593,7 +594,10 @@ def check_model(ctx, s, par, pairs, ef, kT, NK, nkfft, keep_fn, devs):
                 ctx.note(f"{a}/{b} ({par['kind']}): above tolerance on the coarse grid, converged on refinement: "
                          + ", ".join(f"{n}^3: {d:.3f}" for n, d in hist))
                 continue
-            if dev < 0.7 * hist[-2][1] and level < 28:
+            # discretisation error does NOT shrink monotonically (observed on the unchanged code: 0.052, 0.058, 0.018,
+            # 0.013, 0.008 on 16..48^3): keep refining up to the grid limit; only a discrepancy far beyond any
+            # discretisation error seen (> 0.3) that does not shrink is reported at once
+            if level < 28 and not (dev > 0.3 and dev >= 0.7 * hist[-2][1]):
                 nxt.append((a, b, hist, A, B))
                 continue
             if dev < 0.7 * hist[-2][1] and dev < 0.5 * hist[0][1]:
